@@ -71,6 +71,15 @@ type Emission struct {
 	Chain   []string // template call chain from the root
 }
 
+// CommentedCode: a Go code marker inside a text node that is lexed as comment text.
+type CommentedCode struct {
+	Tree   *Tree
+	Pos    parse.Pos
+	Marker string
+	Entry  string
+	Inst   string
+}
+
 // Finding of the typing pass.
 type TypeFinding struct {
 	Tree     *Tree
@@ -94,6 +103,7 @@ type Evaluator struct {
 	Unknown  int
 	Findings []TypeFinding
 	Emits    []Emission
+	CommentedCode []CommentedCode
 	Undefined []string // calls to undefined templates
 	UnknownFuncs map[string]string // function name -> first use position
 	insts    map[string][]string // memo: key -> exit set
@@ -239,6 +249,31 @@ func lexSet(states []string, s string) []string {
 	return setList(set)
 }
 
+// CodeMarkers are token sequences that only make sense as Go code.
+var CodeMarkers = []string{":=", "err != nil", "if err", "func (", "); err"}
+
+// MarkersInComments finds code markers of a text node that are lexed inside a comment when
+// the node is entered in the given state.
+func MarkersInComments(state string, s string) []string {
+	var out []string
+	for _, mk := range CodeMarkers {
+		from := 0
+		for {
+			i := strings.Index(s[from:], mk)
+			if i < 0 {
+				break
+			}
+			at := from + i
+			st := lex1(state, s[:at])
+			if st == LLine || st == LBlock {
+				out = append(out, mk)
+			}
+			from = at + len(mk)
+		}
+	}
+	return out
+}
+
 func setList(set map[string]bool) []string {
 	var out []string
 	for k := range set {
@@ -345,6 +380,11 @@ func (ev *Evaluator) walkList(e *env, l *parse.ListNode, dot Val, st []string) [
 func (ev *Evaluator) walk(e *env, n parse.Node, dot Val, st []string) []string {
 	switch x := n.(type) {
 	case *parse.TextNode:
+		for _, s0 := range st {
+			for _, mk := range MarkersInComments(s0, string(x.Text)) {
+				ev.CommentedCode = append(ev.CommentedCode, CommentedCode{Tree: e.t, Pos: x.Pos, Marker: mk, Entry: s0, Inst: e.inst})
+			}
+		}
 		return lexSet(st, string(x.Text))
 	case *parse.ActionNode:
 		v := ev.evalPipe(e, x.Pipe, dot)
